@@ -6,6 +6,22 @@ PROPS = ['C%02d' % i for i in range(1, 21)]
 BASELINE = "cd /repo && /venv/bin/python -m pytest -ra -q -p no:cacheprovider --timeout=900 --continue-on-collection-errors"
 
 CLAIMED = {
+ 'C18': dict(
+    category='proof',
+    text="Per form with a template and per year, Rocq theorem C18_<form>_<year>: form_mappings_ok template aliases mappings = true "
+         "(vm_compute over data regenerated on this run: the form's pdf_fields by introspection, the template's field table by "
+         "tools/pdf_reader.py from the bundled PDF - XFA packet for the 30 IRS templates, AcroForm dictionaries for the 9 NC ones), with "
+         "Prop reading form_mappings_ok_spec: every mapping targets an existing widget of the same kind; where the widget's "
+         "accessibility text (IRS) or name (NC: ..._li12b_...) carries a line label the mapped line is that line, or the pair is listed "
+         "with its reason in oracles/label_alias.json; a button's export value is one the widget offers; a length limit is not larger "
+         "than the template's; the mapped line is declared; no widget is driven twice; the mapping list is not empty. Exhaustive over "
+         "all 1729 mappings. Exclusive groups: the real value_fn of every button mapping is evaluated for EVERY value of its driving "
+         "line (booleans, all enumeration members, None) - at most one box per group on.",
+    design_ref='DESIGN.md §4 C18',
+    note="Thin use of Coq (checked statement over extracted data). Trusted: the PDF reader written for this project (no PDF library offline), "
+         "the label grammar, the alias list (4 pairs per year, reasons recorded). value_fn are Python lambdas evaluated, not modelled.",
+    technique='Rocq reflective finite check over regenerated mappings and parsed templates + exhaustive evaluation of value functions',
+ ),
  'C14': dict(
     category='proof',
     text="Rocq theorems per line type: C14_bool_rt, C14_int_rt and C14_year_rt (through the standard library's decimal strings, all "
